@@ -81,6 +81,7 @@ def check(program: Program, run: Run) -> None:
     run.rule("R1 every name hole is Quoted with a quote expression built from ctx.quote_char / ctx.alias_quote_char")
     run.rule("R2 definition-site and reference-site quote characters are equal under every shipped SQL_CONTEXT")
     run.rule("R3 the quoted text has the delimiter doubled (escape)")
+    run.rule("R5 (inherited from C08/R1) no name-bearing child is formatted with str()/format instead of get_sql(ctx): it would be quoted with the default context's characters")
     run.rule("R4 every row-source slot (FROM item, UPDATE target, joined item) writes the table's alias exactly once: column qualifiers refer to it")
     fsk = function_skeletons(program)
     n_sites = 0
@@ -202,3 +203,18 @@ def check(program: Program, run: Run) -> None:
     run.analysed["source_slots"] = len(seen4)
     if len(seen4) < 3:
         raise AnalysisError(f"instance count below floor: source slots {len(seen4)}")
+
+    # ---- R5: a child printed through str()/format is rendered by __str__ with the default context, so the names inside
+    # it are delimited by the default quote character and lose their qualifier whatever the statement's dialect says.
+    from . import c08
+    sub = Run("C08", run.tier)
+    c08.check(program, sub)
+    nb = 0
+    for o in sub.obligations:
+        if o.rule.startswith("C08/R1 child node rendered through get_sql(ctx)"):
+            nb += 1
+            run.ob("C07/R5 " + o.rule[7:], o.subject, o.ok, o.detail, o.where)
+    for fd in sub.findings:
+        if not fd.info and fd.key.startswith("C08/ctx-bypass:"):
+            run.finding("C07/quote-context-bypass:" + fd.key.split(":", 1)[1], "names inside this child are written with the default context's quote character and without qualifier: " + fd.what,
+                        where=fd.where, rule="R5 (inherited from C08)")
